@@ -561,6 +561,7 @@ func runC07(c *Ctx) {
 		}
 	}
 	c07NilPointerFields(c)
+	c07NestedNilableFields(c)
 	r.Bound = fmt.Sprintf("all %d (compile environment, run environment, program, back end) combinations of the space above, environments of <= 3 names, objects nested <= 2", nPairs)
 	r.Notes = append(r.Notes,
 		"field reordering is applied only to objects whose fields all have the same type and programs read only num fields: the engine reads fields by position, and a by-position read of a differently typed field after an accepted reordering is an invalid memory access (observed: SIGSEGV in vm OP_OBJ_LOAD for w.r.u with w declared {r, p}) that would kill the harness process",
@@ -659,6 +660,74 @@ func c07NilPointerFields(c *Ctx) {
 				}
 			} else if res.Panic != "" || res.Err == nil || len(tr.log) != 0 {
 				c.fail("C07/mismatch-rejected-nothing-evaluated/pointer-field-nil-vs-set", in, "error returned, nothing evaluated", res.String(), "trace "+fmt.Sprint(tr.log))
+			}
+		}
+	}
+}
+
+// the same one level down: a struct nested in the environment whose slice /
+// map field is nil in one environment and set in the other.  The field's type
+// is value-dependent (nil -> optional), so the two environments have different
+// types although their Go types are identical; a conversion that remembers
+// anything per Go type gets this wrong on the SECOND environment it sees,
+// hence both orders, each on a fresh pair of struct types.
+type c07In1 struct {
+	ID   float64  `yae:"id"`
+	Tags []string `yae:"tags"`
+}
+type c07Env1 struct {
+	A     float64 `yae:"a"`
+	Order c07In1  `yae:"order"`
+}
+type c07In2 struct {
+	ID float64            `yae:"id"`
+	M  map[string]float64 `yae:"m"`
+}
+type c07Env2 struct {
+	A     float64 `yae:"a"`
+	Order c07In2  `yae:"order"`
+}
+type c07In3 struct {
+	ID   float64  `yae:"id"`
+	Tags []string `yae:"tags"`
+}
+type c07Env3 struct {
+	A     float64 `yae:"a"`
+	Order c07In3  `yae:"order"`
+}
+
+func c07NestedNilableFields(c *Ctx) {
+	type tc struct {
+		name     string
+		compile  interface{}
+		run      interface{}
+		accepted bool
+	}
+	cases := []tc{
+		{"nested slice: compile set, run nil", c07Env1{1, c07In1{1, []string{"x"}}}, c07Env1{2, c07In1{2, nil}}, false},
+		{"nested slice: compile set, run set", c07Env1{1, c07In1{1, []string{"x"}}}, c07Env1{2, c07In1{2, []string{"y"}}}, true},
+		{"nested map: compile set, run nil", c07Env2{1, c07In2{1, map[string]float64{"k": 1}}}, c07Env2{2, c07In2{2, nil}}, false},
+		{"nested map: compile set, run set", c07Env2{1, c07In2{1, map[string]float64{"k": 1}}}, c07Env2{2, c07In2{2, map[string]float64{"j": 2}}}, true},
+		{"nested slice: compile nil, run set", c07Env3{1, c07In3{1, nil}}, c07Env3{2, c07In3{2, []string{"y"}}}, false},
+		{"nested slice: compile nil, run nil", c07Env3{1, c07In3{1, nil}}, c07Env3{2, c07In3{2, nil}}, true},
+	}
+	for _, backend := range backends {
+		for _, k := range cases {
+			in := fmt.Sprintf("tr(a) + 1 [%s] env{a; order{id; tags/m}}: %s", backend, k.name)
+			c.eval(in, true)
+			tr := &trace{}
+			cl, o := compile(newEngine(backend, tr), "tr(a) + 1", k.compile)
+			if cl == nil {
+				c.fail("C07/setup/compile", in, "compiles", o.String(), "")
+				continue
+			}
+			res := call(cl, k.run)
+			if k.accepted {
+				if !res.ok() || res.V.Type.Kind != types.KNum || res.V.Num().V != 3 {
+					c.fail("C07/equal-types-accepted-evaluates/nested-nilable-field", in, "3", res.String(), "")
+				}
+			} else if res.Panic != "" || res.Err == nil || len(tr.log) != 0 {
+				c.fail("C07/mismatch-rejected-nothing-evaluated/nested-nilable-field-nil-vs-set", in, "error returned, nothing evaluated", res.String(), "trace "+fmt.Sprint(tr.log))
 			}
 		}
 	}
